@@ -16,6 +16,8 @@
  * --opt mode=cache  case = one access sequence over the 16-slot zone cache
  *                   (cyclic orders and hot-zone orders of 15..18 zones) or one
  *                   process that touches 63 / 64 / 65 distinct TZIDs
+ * --opt mode=byhour case = (zone, year) with offset 0 on January 1st: FREQ=DAILY;BYHOUR=h1,h2 events
+ *                   (all pairs of 0..6 and six later ones) through the whole year (y0= y1= ystep=)
  * --opt tier=quick|thorough   zone list (quick: the ~45 zones named in the oracle)
  * --opt guard_ms=N  CPU budget of one library call before it counts as a hang
  *
@@ -1175,6 +1177,255 @@ enum_cache(void)
 	}
 }
 
+/* ============================================================== byhour */
+/* Several occurrences per local day: DTSTART;TZID=<zone>:<year>0101T<h1>0000 RRULE:FREQ=DAILY;BYHOUR=h1,h2
+ * through one whole year.  Only (zone, year) whose offset at DTSTART is 0 are taken: there BYHOUR=h
+ * unambiguously means h o'clock on the zone's wall clock (see propdef, assumptions).  Expected instants:
+ * every day of the year x {h1, h2} classified by the oracle (ok / gap / fold), judged as in mode=rule. */
+static const int bh_hours[] = {0, 1, 2, 3, 4, 5, 6, 12, 13, 22, 23};
+#define BH_NH	((int)(sizeof(bh_hours) / sizeof(*bh_hours)))
+/* indices into bh_hours: all pairs of 0..6, then a few later ones */
+static int bh_pair[40][2], bh_npair;
+static struct exp_s (*bh_ex)[BH_NH];	/* [day][hour index] */
+static int bh_ndays, bh_year;
+
+struct bhev_s {
+	int a, b;
+};
+
+/* NEAR0: one of the expected offsets around the occurrence is 0, the offset at DTSTART (-1: no occurrence involved) */
+static const char*
+bh_sig(char *sig, const char *what, int second, int dayclass, int near0)
+{
+	snprintf(sig, VD_SIGLEN, "byhour/%s/%s-of-day/%s%s", what, second ? "second" : "first",
+		 dayclass == 2 ? "offset-changes-between" : dayclass == 1 ? "offset-changed-since-yesterday" : "plain-day",
+		 near0 < 0 ? "" : near0 ? "/near-offset-0" : "/away-from-offset-0");
+	return sig;
+}
+
+/* 2: the two times of the day have different offsets, 1: the first differs from yesterday's second, 0: neither
+ * (gap/fold times have no offset of their own: a day with one of them is a change day as well) */
+static int
+bh_dayclass(int d, int a, int b)
+{
+	const struct exp_s *x = &bh_ex[d][a], *y = &bh_ex[d][b];
+	if (x->cls != 'o' || y->cls != 'o' || x->l - x->u[0] != y->l - y->u[0]) {
+		return 2;
+	} else if (d > 0) {
+		const struct exp_s *p = &bh_ex[d - 1][b];
+		if (p->cls != 'o' || p->l - p->u[0] != x->l - x->u[0]) {
+			return 1;
+		}
+	}
+	return 0;
+}
+
+/* does one of the two expected occurrences before, the two after or occurrence J itself (times that exist once
+ * only) have offset 0, the offset DTSTART has? */
+static int
+bh_near0(int j, int a, int b)
+{
+	for (int jj = j > 2 ? j - 2 : 0; jj <= j + 2 && jj < 2 * bh_ndays; jj++) {
+		const struct exp_s *x = &bh_ex[jj / 2][(jj & 1) ? b : a];
+		if (x->cls == 'o' && x->l == x->u[0]) {
+			return 1;
+		}
+	}
+	return 0;
+}
+
+static void
+bh_event(void *arg)
+{
+	const struct bhev_s *r = arg;
+	const int h1 = bh_hours[r->a], h2 = bh_hours[r->b], nex = 2 * bh_ndays;
+	char text[1024], lines[512], sig[VD_SIGLEN], b1[24], b2[24], b3[24];
+	struct ev_s ev = {0};
+	long *got = calloc((size_t)nex + 4, sizeof(*got));
+	int ngot = 0;
+
+	snprintf(lines, sizeof(lines), "DTSTART;TZID=%s:%04d0101T%02d0000\nRRULE:FREQ=DAILY;BYHOUR=%d,%d;COUNT=%d\n",
+		 zname, bh_year, h1, h1, h2, nex);
+	ical_wrap(text, sizeof(text), "c07@verif", lines);
+	vd_desc("zone %s: DTSTART;TZID=%s:%04d0101T%02d0000 RRULE:FREQ=DAILY;BYHOUR=%d,%d;COUNT=%d (offset at DTSTART is 0)",
+		zname, zname, bh_year, h1, h1, h2, nex);
+	ev.text = text;
+	if (guarded(c_parse, &ev)) {
+		vd_viol(bh_sig(sig, "hang-parse", 0, 0, -1), "parsing/instantiating the event does not return");
+		return;
+	} else if (ev.t == NULL || ev.t->strm == NULL) {
+		vd_viol(bh_sig(sig, "no-task", 0, 0, -1), "parser produced no task/stream");
+		return;
+	}
+	ev.s = ev.t->strm;
+	while (ngot < nex + 2) {
+		if (guarded(c_pop, &ev)) {
+			vd_viol(bh_sig(sig, "hang-pop", ngot & 1, 0, -1), "echs_evstrm_pop does not return after %d occurrences", ngot);
+			return;
+		} else if (echs_nul_instant_p(ev.e.from)) {
+			break;
+		}
+		got[ngot++] = inst_epoch(ev.e.from);
+	}
+	/* every expected occurrence whose wall-clock time exists once must come, in order, at its instant.
+	 * Times inside a gap or fold are not judged: each of them absorbs one occurrence of the stream that
+	 * lies within a day of it, whatever its rendering and wherever the stream sorts it (or none, if dropped) */
+	{
+		char *used = calloc((size_t)nex + 1, 1);
+		int j = 0;
+#define BH_EX(jj)	(&bh_ex[(jj) / 2][((jj) & 1) ? r->b : r->a])
+		for (int g = 0; g < ngot; g++) {
+			int absorbed = 0;
+			while (j < nex && BH_EX(j)->cls != 'o') {
+				j++;
+			}
+			if (j < nex && got[g] == BH_EX(j)->u[0]) {
+				j++;
+				continue;
+			}
+			for (int jj = j > 4 ? j - 4 : 0; jj < nex && jj <= j + 4 && !absorbed; jj++) {
+				const struct exp_s *y = BH_EX(jj);
+				if (y->cls != 'o' && !used[jj] && labs(got[g] - y->l) <= 86400) {
+					used[jj] = absorbed = 1;
+				}
+			}
+			if (absorbed) {
+				continue;
+			} else if (j >= nex) {
+				/* behind the year (the stream makes up for dropped gap times): not looked at */
+				break;
+			}
+			vd_viol(bh_sig(sig, "wrong-utc", j & 1, bh_dayclass(j / 2, r->a, r->b), bh_near0(j, r->a, r->b)),
+				"occurrence #%d (%s local): stream gives %sZ, zoneinfo says %sZ (offset %ld)",
+				j + 1, tstr(b1, BH_EX(j)->l), tstr(b2, got[g]), tstr(b3, BH_EX(j)->u[0]), BH_EX(j)->l - BH_EX(j)->u[0]);
+			return;
+		}
+		while (j < nex && BH_EX(j)->cls != 'o') {
+			j++;
+		}
+		if (j < nex) {
+			vd_viol(bh_sig(sig, "missing", j & 1, bh_dayclass(j / 2, r->a, r->b), bh_near0(j, r->a, r->b)),
+				"occurrence #%d (%s local = %sZ) missing: stream ended after %d",
+				j + 1, tstr(b1, BH_EX(j)->l), tstr(b2, BH_EX(j)->u[0]), ngot);
+		}
+		free(used);
+	}
+	free(got);
+}
+
+static void
+bh_case(void *unused)
+{
+	(void)unused;
+	for (int i = 0; i < bh_npair; i++) {
+		struct bhev_s r = {bh_pair[i][0], bh_pair[i][1]};
+		vd_sh->evals += 2 * bh_ndays;
+		run_forked(bh_event, &r);
+		vd_beat();
+	}
+	vd_count("byhour_events", bh_npair);
+}
+
+static void
+enum_byhour(void)
+{
+	const int y0 = (int)vd_opt_l("y0", 1972), y1 = (int)vd_opt_l("y1", 2036), ystep = (int)vd_opt_l("ystep", 1);
+	static const int later[][2] = {{0, 12}, {3, 13}, {12, 13}, {1, 23}, {22, 23}, {0, 23}};
+
+	bh_npair = 0;
+	for (int a = 0; a <= 6; a++) {
+		for (int b = a + 1; b <= 6; b++) {
+			bh_pair[bh_npair][0] = a, bh_pair[bh_npair++][1] = b;
+		}
+	}
+	for (size_t i = 0; i < sizeof(later) / sizeof(*later); i++) {
+		for (int k = 0; k < 2; k++) {
+			int j = 0;
+			while (bh_hours[j] != later[i][k]) {
+				j++;
+			}
+			bh_pair[bh_npair][k] = j;
+		}
+		bh_npair++;
+	}
+	load_zones();
+	for (size_t zi = 0; zi < nzones; zi++) {
+		for (int y = y0; y <= y1; y += ystep) {
+			const long l0 = days_from_civil(y, 1, 1) * 86400L;
+			char *req, *q;
+			struct lines_s ls;
+			int ok = 1, changes = 0;
+
+			if (!c07_next()) {
+				continue;
+			}
+			zname = znames[zi];
+			bh_year = y;
+			bh_ndays = (int)(days_from_civil(y + 1, 1, 1) - days_from_civil(y, 1, 1));
+			vd_shape("byhour");
+			vd_desc("zone %s year %d: FREQ=DAILY;BYHOUR=h1,h2 from January 1st through the year", zname, y);
+			/* every DTSTART used (January 1st, h o'clock) must exist once and at offset 0 */
+			q = req = malloc(64 + strlen(zname) + (size_t)bh_ndays * BH_NH * 14);
+			q += sprintf(q, "occ %s", zname);
+			for (int d = 0; d < bh_ndays; d++) {
+				for (int h = 0; h < BH_NH; h++) {
+					q += sprintf(q, " %ld", l0 + d * 86400L + bh_hours[h] * 3600L);
+				}
+				if (d == 0) {
+					/* ask for the first day alone first: most zones are not eligible */
+					ls = py_req(req);
+					for (size_t i = 0; i < ls.n; i++) {
+						long l, u;
+						char cls[8];
+						if (sscanf(ls.l[i], "O %7s %ld %ld", cls, &l, &u) != 3 || cls[0] != 'o' || l != u) {
+							ok = 0;
+						}
+					}
+					free_lines(&ls);
+					if (!ok) {
+						break;
+					}
+				}
+			}
+			if (!ok) {
+				vd_count("byhour_left_out_dtstart_offset_not_0", 1);
+				free(req);
+				continue;
+			}
+			ls = py_req(req);
+			free(req);
+			if (ls.n != (size_t)bh_ndays * BH_NH) {
+				oracle_fail("short answer to occ", zname);
+			}
+			free(bh_ex);
+			bh_ex = calloc((size_t)bh_ndays, sizeof(*bh_ex));
+			for (size_t i = 0; i < ls.n; i++) {
+				struct exp_s *x = &bh_ex[i / BH_NH][i % BH_NH];
+				char cls[8];
+				int n = 0, m;
+				const char *s = ls.l[i];
+				if (sscanf(s, "O %7s %ld%n", cls, &x->l, &n) < 2) {
+					oracle_fail("bad line", s);
+				}
+				x->cls = cls[0], x->nu = 0;
+				for (s += n; x->nu < 4 && sscanf(s, "%ld%n", &x->u[x->nu], &m) == 1; s += m, x->nu++);
+				changes |= x->cls != 'o' || x->l != x->u[0];
+			}
+			free_lines(&ls);
+			vd_count("byhour_zone_years", 1);
+			if (changes) {
+				vd_nontrivial();
+				vd_count("byhour_zone_years_offset_changes", 1);
+			}
+			if (changes) {
+				vd_sample("zone %s year %d: %d events DTSTART;TZID=%s:%04d0101T<h1>0000 RRULE:FREQ=DAILY;BYHOUR=h1,h2;COUNT=%d, %s",
+					  zname, y, bh_npair, zname, y, 2 * bh_ndays, changes ? "UTC offset changes inside" : "offset 0 all year");
+			}
+			run_forked(bh_case, NULL);
+		}
+	}
+}
+
 /* forks are several times cheaper when parent and child share a CPU (no cross-CPU wake-up) */
 static void
 pin_cpu(void)
@@ -1193,7 +1444,10 @@ enumerate(void)
 {
 	const char *mode = vd_opt("mode", "conv");
 
-	pin_cpu();
+	if (strcmp(mode, "byhour") || vd_opt_l("pin", 0)) {
+		/* byhour forks once per event of 730 occurrences: nothing to gain from sharing a CPU */
+		pin_cpu();
+	}
 	vd_count_cases = 0;
 	guard_us = vd_opt_l("guard_ms", 100) * 1000;
 	py_w = py_r = NULL;
@@ -1203,6 +1457,8 @@ enumerate(void)
 		enum_rule();
 	} else if (!strcmp(mode, "cache")) {
 		enum_cache();
+	} else if (!strcmp(mode, "byhour")) {
+		enum_byhour();
 	} else {
 		fprintf(stderr, "c07_tz: unknown mode %s\n", mode);
 		_exit(2);
